@@ -57,6 +57,14 @@ func c01Cells(tier string) []Cell {
 
 					cells = append(cells, Cell{ID: c.ID()})
 
+					// A forced refresh (WithSkipRead) arriving while the key is being built must wait or build alone.
+					if sc == "o" || sc == "f" {
+						k := c
+						k.Callout = false
+						k.Threads = [][]GOp{{{Key: 0}, {Key: 0}}, {{Key: 0, Skip: true}}}
+						cells = append(cells, Cell{ID: k.ID()})
+					}
+
 					// The bench/failover.go usage pattern: one key buffer reused for the next Get while the
 					// background build of the previous key may still be running, next to a plain Get of the second key.
 					if sc == "o" || sc == "f" {
